@@ -4,8 +4,14 @@ state graph are replayed on the REAL network.ProtocolManager (scripted p2p.IPeer
 real chain.BlockChain + TxPool behind recording wrappers that give deterministic quiescence points) and the
 logged node state after every message is validated by the monitor TraceSync.tla, including equality of the
 final (current, stable) with an in-order run on a second real node.  BlockCache / ConfirmCache are also
-replayed standalone against the sorted-multimap model (SyncCache.tla / TraceSyncCache.tla)."""
-import copy, concurrent.futures
+replayed standalone against the sorted-multimap model (SyncCache.tla / TraceSyncCache.tla).
+The transaction clause has its own model, SyncTx.tla: batches that mix transactions of every status (executed on
+the current branch alone or inside a box, on the side fork only, pending, new, refused by the body check, boxes
+around any of those, repetitions) in every position, delivered before / after / while the blocks that package
+some of them are inserted; its graphs are replayed through the same real manager (real TxGuard, TxPool, chain;
+adapter synctx), seeded random sessions over the whole universe are recorded by the driver synctx-grid, and
+both are validated by the monitor TraceSyncTx.tla (the per-transaction rule)."""
+import copy, json, time, concurrent.futures
 import vlib
 
 LEVEL = "model_checking"
@@ -19,12 +25,18 @@ MANIFEST = dict(
          "ProtocolManager (real blocks, signatures and transactions; real chain.BlockChain, TxPool, 500 ms queue timer) and the node state logged at "
          "each quiescence point is validated step by step by TLC against the monitor, the final current/stable blocks against an in-order run on a "
          "second real node; BlockCache and ConfirmCache are replayed standalone against the sorted-multimap model for every operation on every "
-         "reachable layout over 5 heights and for every insertion order of up to 6 blocks.",
+         "reachable layout over 5 heights and for every insertion order of up to 6 blocks. "
+         "Transaction clause: TLC checks TxReachesPool / PoolClean / PoolOnce / PoolValid on SyncTx.tla (every batch of up to 2-3 transactions "
+         "over palettes of 3-6 transactions out of a universe of 19: packaged by a main block alone or inside a box, by the side block, by both, "
+         "by none, boxes around packaged / new / expired ones, expired / too-late / other-chain / under-priced ones; 2-3 main blocks + a side block "
+         "in any order, a batch interleaved with a block insertion both ways); every transition of those graphs is replayed through the real "
+         "ProtocolManager + TxGuard + TxPool + chain and seeded random sessions (batches of up to 5 of the 19 transactions) are recorded; the pool "
+         "content after every step is validated by TLC against the per-transaction rule (TraceSyncTx.tla).",
     note="Hook-free: the manager's unexported caches are read with reflect/unsafe under their own locks. One message is handled to quiescence "
          "before the next is delivered (concurrent handling is C19's subject); one peer; the engine is abstracted in the design to "
          "'parent known => accepted, 2 of 3 distinct signers => stable' (C03 checks the engine itself).",
-    technique="TLA+ model checking (Sync.tla, SyncCache.tla) + replay of the TLC state graphs on the real ProtocolManager / caches + TLC trace "
-              "validation (TraceSync.tla, TraceSyncCache.tla)")
+    technique="TLA+ model checking (Sync.tla, SyncTx.tla, SyncCache.tla) + replay of the TLC state graphs on the real ProtocolManager / caches, "
+              "seeded random sessions + TLC trace validation (TraceSync.tla, TraceSyncTx.tla, TraceSyncCache.tla)")
 
 SHARDS = 64   # replaying the manager is dominated by waiting for its own 500 ms queue timer, not by CPU
 
@@ -50,6 +62,54 @@ def manager(ctx, name, cfg, limit, coverage=False, shards=SHARDS, replay=True):
                 accepted=ok, samples=summ["samples"])
 
 
+def txgraph(ctx, name, limit=0, shards=8):
+    """One SyncTx configuration: design check, replay of (a seeded sample of) its transitions on the real manager."""
+    dot = ctx.path("synctx_%s.dot" % name)
+    cfg = "MCSyncTx_%s.cfg" % name
+    r = ctx.tlc_exhaustive("MCSyncTx", cfg, timeout=900, dump=dot, workers=2 if ctx.quick() else 8, count=False)
+    files, summ = ctx.replay("synctx", graph=dot, shards=shards, maxlen=30, limit=limit, name="synctx_" + name, timeout=2400)
+    return files, dict(cfg=cfg, states=r["distinct"], transitions=r["generated"], nodes=summ["graph_nodes"], edges=summ["graph_edges"],
+                       behaviours_total=summ["behaviours_total"], behaviours_replayed=summ["behaviours"], steps_on_real_code=summ["steps"],
+                       samples=summ["samples"])
+
+
+def txgrid(ctx, n, shards):
+    """Seeded random sessions over the whole universe (driver synctx-grid); they mostly wait for the manager's queue timer."""
+    per = (n + shards - 1) // shards
+
+    def one(i):
+        out = ctx.path("traces", "synctx_grid.%d.ndjson" % i)
+        rr = ctx.drive("synctx-grid", ["-out", out, "-seed", ctx.seed * 1000 + i, "-n", per, "-base", i * per], timeout=2400,
+                       env={"VERIF_SCRATCH_DIR": ctx.path("work", "synctx_grid.%d" % i, ".keep")[:-6]})
+        return out, json.loads(rr.stdout.strip().splitlines()[-1])
+    t = time.time()
+    with concurrent.futures.ThreadPoolExecutor(shards) as ex:
+        res = list(ex.map(one, range(shards)))
+    ctx.log("synctx-grid: %d sessions, %d steps on real code in %.1fs" % (sum(r[1]["behaviours"] for r in res), sum(r[1]["steps"] for r in res), time.time() - t))
+    return [r[0] for r in res], dict(cfg="synctx-grid (seeded sessions, whole universe, batches of up to 5)", states=0, transitions=0,
+                                     behaviours_replayed=sum(r[1]["behaviours"] for r in res), steps_on_real_code=sum(r[1]["steps"] for r in res), samples=[])
+
+
+def transactions(ctx, graphs, sessions, grid_shards, par=0):
+    """The transaction clause: every SyncTx graph and the seeded sessions through the real manager, then ONE monitor run over all traces.
+    par = how many graphs are replayed side by side (0: all, and the sessions beside them)."""
+    with concurrent.futures.ThreadPoolExecutor(par or len(graphs) + 1) as ex:
+        jobs = [ex.submit(txgraph, sub(ctx, "t_" + name), name, limit, shards) for name, limit, shards in graphs]
+        if not par:
+            jobs.append(ex.submit(txgrid, sub(ctx, "t_grid"), sessions, grid_shards))
+        res = [j.result() for j in jobs]
+    if par:
+        res.append(txgrid(sub(ctx, "t_grid"), sessions, grid_shards))
+    files = [f for fs, _ in res for f in fs]
+    ok = ctx.validate("TraceSyncTx", "TraceSyncTx.cfg", files, what="ProtocolManager + TxGuard + TxPool: SyncTx graphs %s and %d seeded sessions" % (
+        " ".join(g[0] for g in graphs), sessions), timeout=2400, count_behaviours=False)
+    out = []
+    for _, r in res:
+        r["accepted"] = ok
+        out.append(r)
+    return out
+
+
 def caches(ctx, name, maxlen):
     dot = ctx.path("synccache_%s.dot" % name)
     cfg = "MCSyncCache_%s.cfg" % name
@@ -65,7 +125,9 @@ def negatives(ctx):
     """With a deviation switched on, the design violates the clause it belongs to."""
     out = []
     for module, cfg, want in (("MCSync", "MCSync_negSorted.cfg", "CacheSorted"), ("MCSync", "MCSync_negConverges.cfg", "Converges"),
-                              ("MCSync", "MCSync_negTx.cfg", "TxOnce"), ("MCSync", "MCSync_negRace.cfg", "ConfirmsKept"), ("MCSyncCache", "MCSyncCache_neg.cfg", "Refines")):
+                              ("MCSync", "MCSync_negTx.cfg", "TxOnce"), ("MCSync", "MCSync_negRace.cfg", "ConfirmsKept"), ("MCSyncCache", "MCSyncCache_neg.cfg", "Refines"),
+                              ("MCSyncTx", "MCSyncTx_negAny.cfg", "TxReachesPool"), ("MCSyncTx", "MCSyncTx_negAdd.cfg", "PoolClean"),
+                              ("MCSyncTx", "MCSyncTx_negStale.cfg", "TxReachesPool")):
         r = ctx.tlc(module, cfg, timeout=600, expect_ok=False, workers=2)
         if r["inv"] != want:
             raise vlib.Broken("negative control %s: expected %s to be violated, got %s\n%s" % (cfg, want, r["inv"], r["out"][-1500:]))
@@ -83,10 +145,15 @@ def run(ctx):
         neg = ex.submit(negatives, sub(ctx, "neg"))
         results = []
         if q:
+            # every transition of the core graph (a batch that mixes executed / new / pending / refused ones, before, after and while the blocks
+            # are inserted) and of the smallest box graph, seeded samples of the others
+            txs = ex.submit(transactions, sub(ctx, "tx"), [("coreq", 0, 8), ("boxq", 0, 2), ("boxes", 200, 4), ("wide", 250, 8)], 48, 16)
             five = ex.submit(manager, sub(ctx, "m2"), "five", "MCSync_five.cfg", 300, False, 16)
             results.append(manager(sub(ctx, "m1"), "quick", "MCSync_quick.cfg", 1500, False, 48))
             results.append(five.result())
+            results += txs.result()
         else:   # one manager replay at a time: 64 processes with a real node each
+            results += transactions(sub(ctx, "tx"), [("wide", 0, 24), ("core", 0, 16), ("core3", 0, 16), ("boxes", 0, 16), ("side", 0, 16), ("pos", 0, 8), ("invalid", 0, 1), ("boxq", 0, 2)], 1600, 64, par=2)
             results.append(manager(sub(ctx, "m1"), "quick", "MCSync_quick.cfg", 0, True))
             results.append(manager(sub(ctx, "m2"), "five", "MCSync_five.cfg", 0))
             results.append(manager(sub(ctx, "m4"), "three", "MCSync_three.cfg", 10000))
@@ -105,7 +172,11 @@ def run(ctx):
     ctx.extra["replay_covers_every_transition_of"] = [r["cfg"] for r in results if r.get("behaviours_total") and r["behaviours_replayed"] == r["behaviours_total"]]
     ctx.assumptions += [
         "messages are handled one at a time: the next one is delivered after the manager reached quiescence (inserts finished, caches cleared up to the stable height)",
-        "a linear segment on top of genesis, 3 deputies, the node under test is an observer (never signs); block 2 carries a transaction; the batch transactions are in no block",
-        "the transaction handler compares expiry with the wall clock: the batch expires 15 minutes after the harness process started (30-minute window)",
+        "a linear segment on top of genesis, 3 deputies, the node under test is an observer (never signs); in Sync.tla block 2 carries a transaction and the batch transactions are in no block",
+        "the transaction handler compares expiry with the wall clock: the batch expires 15 minutes after the harness process started (30-minute window); "
+        "SyncTx worlds: genesis 5 minutes old, valid transactions expire 20 minutes after the world was built, the world is rebuilt after 8 minutes",
+        "SyncTx: the side block is delivered after its main-branch sibling (it never becomes the current block: fork choice is C03's subject); a batch is not delivered while "
+        "the queue timer has an insertable cached block to drain (that interleaving is covered by the explicit RaceAdd / RaceInsert actions with a directly inserted block); "
+        "no confirms travel (the stable block stays at genesis)",
         "after the named deviation Dev_CacheAddMiddle the final-convergence clause is waived for that behaviour (blocks were dropped by the known defect); every other step is still compared",
     ]
